@@ -18,6 +18,9 @@ T = {
  "C04": ("E4 identity", "exhaustive enumeration of all small values of every hashable type and of all constructed/reachable actor-system states; all pairs decided by grouping on a recording hasher's stream, the real fingerprint and component-wise identity",
          "model_checking", "Every unordered pair within each family is decided: equal component-wise identity => same hasher stream and fingerprint however built; different identity => different stream and fingerprint; == agrees with component-wise identity. End-to-end: bfs unique_state_count equals the number of component-wise distinct reachable states for every zoo system.",
          "identical recorded write sequences collide under every hasher (sound); differing sequences are additionally compared on the real 64-bit fingerprint (accidental collisions are ~1e-12 likely at these sizes)", "DESIGN §4 C04"),
+ "C05": ("E2 sched", "stateless exploration of all schedules (preemption-bounded, replay-from-prefix DFS) of the real worker threads and of the real job market under a cooperative scheduler installed through the cfg-gated hooks",
+         "model_checking", "Every schedule within the preemption bound of every (model, strategy, threads, block size, stop reason) case: all workers exit, join returns or panics (never hangs), each state evaluated once across workers, nothing lost, verdicts equal the single-threaded oracle, discoveries are genuine; the market alone: every job handed out exactly once (at most once after an early stop), all workers exit. Deadlock = no enabled thread; non-termination = step horizon.",
+         "sequential consistency between hook points (Relaxed atomics not modelled); a DashMap call is one atomic step; interleavings only at hook points (lock, wait, notify_one choice, yield points before shared-map accesses)", "DESIGN §4 C05, appendix C"),
  "C06": ("E3 actorstep", "exhaustive enumeration of (constructed system state x enabled action x handler output) triples on the real next_state/actions/init_states vs a reference interpreter; full exploration of scripted systems with canonical keys",
          "model_checking", "One-step conformance from every constructed (also unreachable) state, for every output of an 819-entry menu, per network kind and history mode; plus every reachable state and edge of 10 scripted systems x 12 configurations.",
          "reference interpreter (DESIGN appendix A) is the specification; ignored action and successor equal to the source are identified", "DESIGN §4 C06"),
@@ -48,9 +51,9 @@ T = {
  "C11": ("E1 graphs", "exhaustive enumeration of models x eventually masks x strategies vs. maximal-avoiding-path oracle; exactness on oracle-detected forests",
          "model_checking", "No false alarm on any model within the bound; exact on every forest-shaped model within the bound.",
          "oracle (search for a dead end or cycle in the not-P subgraph; path-count forest test) trusted", "DESIGN §4 C11"),
- "C12": ("E1 graphs + truth table", "full truth table of HasDiscoveries; exhaustive enumeration of models x finish variants x target counts x depth limits x strategies; seeds x choosers replayed twice",
+ "C12": ("E1 graphs + truth table + E2 sched", "full truth table of HasDiscoveries; exhaustive enumeration of models x finish variants x target counts x depth limits x strategies; seeds x choosers replayed twice; timeouts: schedule exploration with a virtual clock",
          "model_checking", "Every variant/discovered-subset/property-kind combination; early stop only when the condition holds; state_count >= min(target,total); no path deeper than the limit and BFS complete below it; same first simulation trace per seed.",
-         "timeouts are decided under the controlled scheduler (E2) - until that engine is registered the timeout clause is not covered by this check", "DESIGN §4 C12"),
+         "timeouts are decided under the controlled scheduler with a virtual clock (unexpired: time may only advance when no thread can run; expiring: the timer fires after k worker decisions for a list of k); real-time behaviour is not measured", "DESIGN §4 C12"),
  "C13": ("E1 graphs", "exhaustive enumeration of models x labellings on single-threaded spawn_bfs vs. BFS-distance oracle",
          "model_checking", "Visitor order non-decreasing in depth, each state evaluated at its true distance, every always/sometimes witness has the minimum number of transitions.",
          "oracle distances trusted", "DESIGN §4 C13"),
@@ -84,6 +87,7 @@ m = {
            "baseline_off_cmd": "cd /repo && cargo test --workspace --no-fail-fast --offline",
            "source_commits": hook_commits, "add_only": True},
  "engines": [
+   {"name": "E2 sched", "path": "harness/src/engines/e2.rs + harness/src/sched.rs", "serves_properties": ["C05","C12","C03"], "kind_free_text": "controlled scheduler over the real worker threads / job market: preemption-bounded stateless DFS over schedules, virtual clock"},
    {"name": "E3 actorstep", "path": "harness/src/engines/e3.rs", "serves_properties": ["C06","C07","C09"], "kind_free_text": "explicit enumeration of actor-system states/actions/handler outputs on the real ActorModel vs a reference interpreter; xplore over scripted systems"},
    {"name": "E4 identity", "path": "harness/src/engines/e4.rs", "serves_properties": ["C04"], "kind_free_text": "all pairs of small values: recording hasher stream, real fingerprint, component-wise identity"},
    {"name": "E5 histories", "path": "harness/src/engines/e5.rs", "serves_properties": ["C08","C14","C18"], "kind_free_text": "all small concurrent histories on the real testers vs definition-level search"},
